@@ -5,42 +5,50 @@ import MptModel.Lemmas.Linepart
 namespace Mpt.Linepart
 open Mpt.Visible
 
-/-- the "tiny non-zero value" branch of `mpt_linepart_code` is dead in exact arithmetic -/
-theorem code_tiny_dead (val : Rat) : ¬ (val ≠ 0 ∧ val * 65536 = 0) := by
-  intro ⟨h1, h2⟩
-  apply h1
-  grind
-
 theorem code_eq (f : Rat) (h0 : 0 ≤ f) (h1 : f ≤ 1) :
-    code f = if 65535 < f * 65536 then 65535 else (f * 65536).floor := by
+    code f = if f ≠ 0 ∧ f * 65536 < 1 then 1 else if 65535 < f * 65536 then 65535 else (f * 65536).floor := by
   unfold code
   rw [if_neg (by grind)]
-  simp only []
-  rw [if_neg (code_tiny_dead f)]
 
 theorem code_bounds (f : Rat) (h0 : 0 ≤ f) (h1 : f ≤ 1) : 0 ≤ code f ∧ code f ≤ 65535 := by
   rw [code_eq f h0 h1]
   split
   · omega
-  · rename_i h
-    constructor
-    · rw [Rat.le_floor_iff]; grind
-    · have : (f * 65536).floor < 65536 := by rw [Rat.floor_lt_iff]; grind
-      omega
+  · split
+    · omega
+    · constructor
+      · rw [Rat.le_floor_iff]; grind
+      · have : (f * 65536).floor < 65536 := by rw [Rat.floor_lt_iff]; grind
+        omega
+
+/-- a non-zero fraction gets a non-zero code -/
+theorem code_pos (f : Rat) (h0 : 0 < f) (h1 : f ≤ 1) : 1 ≤ code f := by
+  rw [code_eq f (by grind) h1]
+  split
+  · omega
+  · rename_i hn
+    split
+    · omega
+    · rw [Rat.le_floor_iff]
+      have : ¬ (f * 65536 < 1) := by
+        intro hc; exact hn ⟨by grind, hc⟩
+      grind
 
 theorem code_accuracy (f : Rat) (h0 : 0 ≤ f) (h1 : f ≤ 1) :
-    real (code f) ≤ f ∧ f - real (code f) ≤ 1 / 65536 := by
+    real (code f) - f ≤ 1 / 65536 ∧ f - real (code f) ≤ 1 / 65536 := by
   rw [code_eq f h0 h1]
   unfold real
   split
   · rename_i h; constructor <;> grind
-  · have h2 := Rat.floor_le (f * 65536)
-    have h3 := Rat.lt_floor_add_one (f * 65536)
-    have h4 : (((f * 65536).floor + 1 : Int) : Rat) = ((f * 65536).floor : Rat) + 1 := by
-      simp [Rat.intCast_add]
-    rw [h4] at h3
-    generalize ((f * 65536).floor : Rat) = c at h2 h3
-    constructor <;> grind
+  · split
+    · rename_i h; constructor <;> grind
+    · have h2 := Rat.floor_le (f * 65536)
+      have h3 := Rat.lt_floor_add_one (f * 65536)
+      have h4 : (((f * 65536).floor + 1 : Int) : Rat) = ((f * 65536).floor : Rat) + 1 := by
+        simp [Rat.intCast_add]
+      rw [h4] at h3
+      generalize ((f * 65536).floor : Rat) = c at h2 h3
+      constructor <;> grind
 
 theorem u16_code (f : Rat) (h0 : 0 ≤ f) (h1 : f ≤ 1) : u16 (code f) = (code f).toNat := by
   obtain ⟨a, b⟩ := code_bounds f h0 h1
